@@ -102,14 +102,22 @@ def rule_tables(chk, facts):
             calls = [n["m"] for n in method_calls(r["body"], r"^(visit_none|recoverable_visit_some|visit_some)$")]
             hs = sorted({(ctor(h[0]), ctor(h[1])) for h in r["heads"] if len(h) == 2})
             got.append((hs, sorted(set(calls))))
-        want = [([("Null", "Opt"), ("Reserved", "Opt")], ["visit_none"]),
-                ([("Opt", "Opt")], ["recoverable_visit_some", "visit_none"]),
-                ([("_", "Opt")], ["recoverable_visit_some"])]
-        chk.expect(got[:3] == want, "option-rules",
-                   f"deserialize_option must implement, in order: (null|reserved, opt) -> none; (opt, opt) -> inner with recovery / none; "
-                   f"(_, opt) -> constituent with recovery. Found {got}", ok_detail=str(got[:3]))
-        chk.expect(len(got) == 4 and got[3][0] == [("_", "_")] and not got[3][1], "option-rules:else-rejects",
-                   f"deserialize_option: any other (wire, expected) pair must be rejected; found {got[3:]}")
+        # decided by first-match simulation over sample pairs, so the order of disjoint arms does not matter
+        def first_match(w, e):
+            for hs, calls_ in got:
+                for hw, he in hs:
+                    if hw in ("_", w) and he in ("_", e):
+                        return calls_
+            return None
+        want = {("Null", "Opt"): ["visit_none"], ("Reserved", "Opt"): ["visit_none"], ("Opt", "Opt"): ["recoverable_visit_some", "visit_none"],
+                ("Nat", "Opt"): ["recoverable_visit_some"], ("Record", "Opt"): ["recoverable_visit_some"], ("Empty", "Opt"): ["recoverable_visit_some"]}
+        dec = {k: first_match(*k) for k in want}
+        chk.expect(dec == want, "option-rules",
+                   f"deserialize_option must decide: (null|reserved, opt) -> none; (opt, opt) -> inner with recovery / none; "
+                   f"(other, opt) -> constituent with recovery. Decisions found {dec} from arms {got}", ok_detail=str(dec))
+        rej = {k: first_match(*k) for k in (("Nat", "Nat"), ("Opt", "Nat"), ("Null", "Null"), ("Record", "Variant"))}
+        chk.expect(all(v is not None and not v for v in rej.values()), "option-rules:else-rejects",
+                   f"deserialize_option: a pair whose expected type is not opt must be rejected; decisions {rej}")
         # the checker's opt rules all end in acceptance, so recovery must map a failed coercion to none:
         hrec = c.method(r"^candid::de::Deserializer", "recoverable_visit_some", "")
         chk.analysed(hrec["key"])
